@@ -368,9 +368,9 @@ def v4_parameter_translation(ctx) -> None:
                 mk = PT.find_all(inner[0], "_M_mk = _M_mp[_M_k]", {"_M_mp": mp, "_M_k": k})
                 if mk:
                     mkn = mk[0][1]["_M_mk"]
-            if mkn is not None:
-                ok = PT.has(inner[0], "_M_ep[_M_mk] = _M_pr[_M_k]", {"_M_mk": mkn, "_M_pr": pr, "_M_k": k}) and \
-                    bool(PT.find_all(inner[0], "_M_ep[_M_mk] != _M_pr[_M_k]", {"_M_mk": mkn, "_M_pr": pr, "_M_k": k}))
+            for mke in ([mkn] if mkn is not None else []) + [f"{mp}[{k}]"]:
+                ok = ok or (PT.has(inner[0], "_M_ep[_E_mk] = _M_pr[_M_k]", {"_E_mk": mke, "_M_pr": pr, "_M_k": k}) and
+                            bool(PT.find_all(inner[0], "_M_ep[_E_mk] != _M_pr[_M_k]", {"_E_mk": mke, "_M_pr": pr, "_M_k": k})))
     if ok:
         ctx.ok("V4", "CartesianProduct.get_extra_parameters: child i's values re-keyed through child i's table, contradictions detected")
     else:
